@@ -9,7 +9,7 @@ import sys, os, json, subprocess, shutil, tempfile, re, time
 HERE = os.path.dirname(os.path.abspath(__file__)); ROOT = os.path.dirname(HERE)
 SEEDED = os.path.join(ROOT, 'seeded')
 SUITE = 'cargo nextest run --workspace --no-fail-fast --offline --test-threads 8'
-ALL = ['C01', 'C02', 'C03', 'C04', 'C07', 'C08', 'C09', 'C10', 'C11', 'C12', 'C13', 'C16', 'C17']
+ALL = ['C01', 'C02', 'C03', 'C04', 'C05', 'C06', 'C07', 'C08', 'C09', 'C10', 'C11', 'C12', 'C13', 'C14', 'C15', 'C16', 'C17']
 
 def sh(cmd, cwd=None, timeout=3600):
     p = subprocess.run(cmd, shell=True, cwd=cwd, capture_output=True, text=True, timeout=timeout)
@@ -87,19 +87,50 @@ def detect(sid, props=None):
     assert out.strip() == '', '/repo is not clean: ' + out
     rc, out = sh('git -C /repo apply %s' % os.path.join(d, 'patch.diff')); assert rc == 0, out
     res = {}
+    meta0 = json.load(open(os.path.join(d, 'meta.json')))
+    plist = props or [p for p in ALL if p != 'C09' or str(meta0.get('property', '')).startswith('C09')]
+    def one(p):
+        t0 = time.time()
+        rc, out = sh('./check %s --tier quick --out /tmp/vx_seed_evidence' % p, cwd=ROOT, timeout=1800)
+        lines = [l for l in out.splitlines() if l.startswith(('VIOLATION', 'UNDECIDED', 'OK', 'KNOWN'))]
+        return p, {'rc': rc, 'lines': [l[:400] for l in lines], 'wall_s': round(time.time() - t0, 1)}
     try:
-        for p in (props or ALL):
-            t0 = time.time()
-            rc, out = sh('./check %s --tier quick --out /tmp/vx_seed_evidence' % p, cwd=ROOT, timeout=1800)
-            lines = [l for l in out.splitlines() if l.startswith(('VIOLATION', 'UNDECIDED', 'OK', 'KNOWN'))]
-            res[p] = {'rc': rc, 'lines': [l[:400] for l in lines], 'wall_s': round(time.time() - t0, 1)}
+        # build the replay binary once against the patched tree (the checks then only run it)
+        sh('cp /repo/Cargo.lock replay/Cargo.lock; cd replay && CARGO_NET_OFFLINE=true CARGO_TARGET_DIR=../build/replay_target cargo build --offline --quiet', cwd=ROOT)
+        from concurrent.futures import ThreadPoolExecutor
+        with ThreadPoolExecutor(max_workers=5) as ex:
+            for p, r in ex.map(one, plist): res[p] = r
     finally:
         sh('git -C /repo checkout -- .')
     meta = json.load(open(os.path.join(d, 'meta.json')))
-    meta['detection_quick'] = {'caught_by': sorted(p for p, r in res.items() if r['rc'] == 1), 'undecided': sorted(p for p, r in res.items() if r['rc'] == 2),
+    meta['detection_quick'] = {'checks_run': plist, 'how': 'vx/seeded.py detect: git -C /repo apply patch.diff; ./check <P> --tier quick for the listed properties (C09 only for changes that target C09: its Kani part takes a minute and touches nothing else); git -C /repo checkout -- .', 'caught_by': sorted(p for p, r in res.items() if r['rc'] == 1), 'undecided': sorted(p for p, r in res.items() if r['rc'] == 2),
                                'details': {p: r['lines'] for p, r in res.items() if r['rc'] != 0}}
     json.dump(meta, open(os.path.join(d, 'meta.json'), 'w'), indent=1)
     print(sid, json.dumps(meta['detection_quick'], indent=1))
+
+def table():
+    rows = []
+    for sid in sorted(os.listdir(SEEDED)):
+        m = json.load(open(os.path.join(SEEDED, sid, 'meta.json')))
+        dq = m.get('detection_quick', {})
+        caught = dq.get('caught_by', [])
+        obl = []
+        for p, lines in dq.get('details', {}).items():
+            for l in lines:
+                mm = re.search(r'obligation=(\S+)', l)
+                if mm and mm.group(1) not in obl: obl.append(mm.group(1))
+        wit = any('failing-input=' in l for lines in dq.get('details', {}).values() for l in lines)
+        und = dq.get('undecided', [])
+        res = ('caught: ' + ', '.join(caught)) if caught else ('UNDECIDED: ' + ', '.join(und) if und else 'not caught')
+        if m.get('detection_thorough'): res += '; thorough: ' + m['detection_thorough']
+        rows.append('| `%s` | %s | %s | %s | %s%s |' % (sid, m.get('property', '?'), (m.get('summary') or '')[:150].replace('|', '/').replace('\n', ' '), (m.get('needs_to_manifest') or '')[:110].replace('|', '/').replace('\n', ' '), res, ('; obligations: ' + ', '.join('`%s`' % o for o in obl[:3])) if obl else '') + (' **replayed input**' if wit else ''))
+    head = '| seeded change | targets | what was changed | needs to manifest | quick checks |\n|---|---|---|---|---|\n'
+    txt = head + '\n'.join(rows) + '\n\n%d seeded changes; %d caught by at least one quick check, %d of them with a concrete failing input replayed on the real library; %d undecided only; %d not caught.' % (
+        len(rows), sum('caught:' in r for r in rows), sum('replayed input' in r for r in rows), sum('UNDECIDED' in r and 'caught:' not in r for r in rows), sum('| not caught' in r for r in rows))
+    d = open(os.path.join(ROOT, 'DESIGN.md')).read()
+    a, z = d.index('<!-- SEEDED-TABLE-BEGIN -->'), d.index('<!-- SEEDED-TABLE-END -->')
+    open(os.path.join(ROOT, 'DESIGN.md'), 'w').write(d[:a] + '<!-- SEEDED-TABLE-BEGIN -->\n' + txt + '\n' + d[z:])
+    print(txt[-300:])
 
 if __name__ == '__main__':
     cmd = sys.argv[1]
@@ -108,5 +139,6 @@ if __name__ == '__main__':
     if cmd == 'scratch': detect_scratch(sys.argv[2], sys.argv[3:] or None)
     if cmd == 'scratch-all':
         for sid in sorted(os.listdir(SEEDED)): detect_scratch(sid)
+    if cmd == 'table': table()
     if cmd == 'detect-all':
         for sid in sorted(os.listdir(SEEDED)): detect(sid)
